@@ -72,6 +72,12 @@ pub trait ZnxView: ZnxInfos + DataView<D: DataRef> {
         assert!(i < self.cols(), "cols: {} >= self.cols(): {}", i, self.cols());
         assert!(j < self.size(), "size: {} >= self.size(): {}", j, self.size());
         let offset: usize = self.n() * (j * self.cols() + i);
+        // Types whose `poly_count` has further factors (matrix rows / output columns) may hold fewer polynomials than cols * size.
+        assert!(
+            offset + self.n() <= self.n() * self.poly_count(),
+            "polynomial ({i}, {j}) is outside the {} polynomials of the object",
+            self.poly_count()
+        );
         unsafe { self.as_ptr().add(offset) }
     }
 
@@ -100,6 +106,12 @@ pub trait ZnxViewMut: ZnxView + DataViewMut<D: DataMut> {
         assert!(i < self.cols(), "cols: {} >= self.cols(): {}", i, self.cols());
         assert!(j < self.size(), "size: {} >= self.size(): {}", j, self.size());
         let offset: usize = self.n() * (j * self.cols() + i);
+        // Types whose `poly_count` has further factors (matrix rows / output columns) may hold fewer polynomials than cols * size.
+        assert!(
+            offset + self.n() <= self.n() * self.poly_count(),
+            "polynomial ({i}, {j}) is outside the {} polynomials of the object",
+            self.poly_count()
+        );
         unsafe { self.as_mut_ptr().add(offset) }
     }
 
